@@ -562,7 +562,7 @@ func main() {
 		time.AfterFunc(40*time.Second, func() { pprof.StopCPUProfile(); f.Close(); os.Exit(0) })
 	}
 	_ = prop
-	root := fmt.Sprintf("/dev/shm/verif-c12-%d", os.Getpid())
+	root := vcommon.ShmDir("c12")
 	if _, err := os.Stat("/dev/shm"); err != nil {
 		root = filepath.Join(vcommon.Dir(), ".work", fmt.Sprintf("c12-%d", os.Getpid()))
 	}
